@@ -650,13 +650,31 @@ func roundTrip(c *core.Ctx, id string, r int) {
 	// a third of the round trips send the encoder's output through the channel's own write path (synchronous, or queued
 	// with the background sender held back until every write call has returned) and decode what reached the transport
 	var wrig *fc.WireRig
+	nonBlockVia := false
+	refused := 0
 	via := ""
 	if rng.Intn(3) == 0 {
 		mode, q := mon.Sync, 0
-		if rng.Intn(3) != 0 {
+		switch rng.Intn(4) {
+		case 0, 1:
 			mode, q = mon.Blocking, 4096
+		case 2:
+			// a small non-blocking queue behind the late sender: messages that find it full are refused with an exception
+			// (an allowed outcome), and what does go out must still be a sequence of whole frames of the accepted ones
+			mode, q = mon.NonBlock, 1+rng.Intn(4)
+			nonBlockVia = true
 		}
-		if wrig, err = fc.NewWireRig(e, mode, q); err != nil {
+		var wrap *[2]int
+		if mode != mon.NonBlock && rng.Intn(3) == 0 {
+			// on the library's write-buffering transport wrappers (small buffer: frames below and above its size)
+			wv := [][2]int{{0, 64}, {32, 64}, {0, 1024}}[rng.Intn(3)]
+			wrap = &wv
+			if mode == mon.Blocking {
+				q = 4 // several sender batches between two flushes
+			}
+			c.Count("round_trips_through_channel_on_buffering_wrapper", 1)
+		}
+		if wrig, err = fc.NewWireRig(e, mode, q, wrap); err != nil {
 			wrig = nil
 		} else {
 			via = " via the " + mode.String() + " channel"
@@ -716,6 +734,13 @@ func roundTrip(c *core.Ctx, id string, r int) {
 			msg = fc.Carry(carrier, p, rng)
 		}
 		off += n
+		if wrig != nil && nonBlockVia && (e.Kind == fc.Fixed || e.Kind == fc.Delim) {
+			// these encoders hand stream carriers on as streams; a stream that meets a full non-blocking queue half-way is cut
+			// by the channel, not by the encoder (C14's business): use the carrier that reaches the head as one write
+			if _, isBytes := msg.([]byte); !isBytes {
+				carrier, msg = "[]byte", append([]byte{}, p...)
+			}
+		}
 		if wrig != nil && e.Kind == fc.Fixed {
 			if _, isString := msg.(string); isString {
 				// the fixed-length encoder passes messages through unchanged and the channel's head handler takes no
@@ -724,18 +749,24 @@ func roundTrip(c *core.Ctx, id string, r int) {
 			}
 		}
 		if wrig != nil {
+			excBefore := wrig.ExcCount()
 			if werr := wrig.Write(msg); werr != nil {
 				wrig.Finish()
 				rig.Close()
 				c.Violation("C04:round-trip-encode-failed:"+e.Kind, id, fmt.Sprintf("%s%s: Channel.Write of an admitted %d-byte payload (%s) returned %v", e, via, n, carrier, werr), nil)
 				return
 			}
+			if wrig.ExcCount() > excBefore {
+				refused++
+				c.Count("round_trip_messages_refused_by_full_queue", 1)
+				continue // raised an exception: contributes no frame
+			}
 			want, _ := e.Expect(p)
 			st := len(s.wire)
 			s.wire = append(s.wire, want...) // placeholder with the reference layout; replaced by the real wire below
 			s.layout = append(s.layout, fc.Span{Start: st, HdrEnd: st + len(want) - n, End: len(s.wire)})
 			if e.Kind == fc.Delim {
-				s.layout[f].HdrEnd = st + n
+				s.layout[len(s.layout)-1].HdrEnd = st + n
 			}
 			s.expect = append(s.expect, p)
 			if n > maxLen {
@@ -754,7 +785,7 @@ func roundTrip(c *core.Ctx, id string, r int) {
 		s.wire = append(s.wire, em[0].Bytes...)
 		s.layout = append(s.layout, fc.Span{Start: st, HdrEnd: st + len(em[0].Bytes) - n, End: len(s.wire)})
 		if e.Kind == fc.Delim {
-			s.layout[f].HdrEnd = st + n
+			s.layout[len(s.layout)-1].HdrEnd = st + n
 		}
 		s.expect = append(s.expect, p)
 		if n > maxLen {
@@ -768,12 +799,15 @@ func roundTrip(c *core.Ctx, id string, r int) {
 			c.Inconclusive(id, "watchdog: the channel did not quiesce after the round-trip writes")
 			return
 		}
-		if len(exc) != 0 || len(wire) != len(s.wire) {
+		if len(exc) != refused || len(wire) != len(s.wire) {
 			c.Violation("C04:round-trip-encode-failed:"+e.Kind, id, fmt.Sprintf("%s%s: %d admitted payloads written, %d bytes reached the transport (reference encoding: %d bytes), exceptions=%v", e, via, k, len(wire), len(s.wire), fc.ErrStrings(exc)),
 				map[string]interface{}{"encoder": e.String()})
 			return
 		}
 		s.wire = wire
+		if k = len(s.expect); k == 0 {
+			return
+		}
 	}
 	// the matching decoder; maximum tight or loose
 	total := 0
